@@ -109,6 +109,44 @@ type Op struct {
 	D       int        `json:"d,omitempty"`
 	// FilterRace: a by-filter mutation (MOp, F) paused between its select and its update while Inner runs
 	Inner []Op `json:"inner,omitempty"`
+	// auxiliary logs of the store contract (QueueAux.tla): delivery-attempt log and backlog-trend samples
+	Att *AttSpec    `json:"attempt,omitempty"` // RecordAttempt
+	AF  *AttFilter  `json:"af,omitempty"`      // ListAttempts
+	TF  *TrendQuery `json:"tf,omitempty"`      // ListTrend
+	At  int         `json:"at,omitempty"`      // CaptureTrend: explicit instant (0 = the store's clock)
+}
+
+// AttSpec is one delivery attempt to record.  IDN is the numeric order of an explicit id ("a0007" -> 7), 0 for a
+// blank id (the store then generates one).
+type AttSpec struct {
+	ID   string `json:"id"`
+	IDN  int    `json:"idn"`
+	Ev   string `json:"ev"`
+	Rt   string `json:"rt"`
+	Tg   string `json:"tg"`
+	N    int    `json:"n"`
+	Code int    `json:"code"`
+	Err  string `json:"err"`
+	Out  string `json:"out"`
+	Dr   string `json:"dr"`
+	At   int    `json:"at"`
+}
+
+type AttFilter struct {
+	Rt     string `json:"rt"`
+	Tg     string `json:"tg"`
+	Ev     string `json:"ev"`
+	Out    string `json:"out"`
+	Limit  int    `json:"limit"`
+	Before int    `json:"before"`
+}
+
+type TrendQuery struct {
+	Rt    string `json:"rt"`
+	Tg    string `json:"tg"`
+	Since int    `json:"since"`
+	Until int    `json:"until"`
+	Limit int    `json:"limit"`
 }
 
 // Schedule is a named operation sequence with a configuration.
